@@ -119,7 +119,7 @@ def _collection_of(P, u, e):
     if isinstance(e, ast.Name):
         # a list appended to, or a generator expression / loop value from <coll>.items()
         for a in P.own(u, ast.Assign):
-            if any(isinstance(t, ast.Name) and t.id == e.id for t in a.targets) and isinstance(a.value, ast.GeneratorExp):
+            if any(isinstance(t, ast.Name) and t.id == e.id for t in a.targets) and isinstance(a.value, (ast.GeneratorExp, ast.ListComp)):
                 it = a.value.generators[0].iter
                 if isinstance(it, ast.Name):
                     return _collection_of(P, u, it)
@@ -129,7 +129,7 @@ def _collection_of(P, u, e):
                     and isinstance(it.func.value, ast.Name) and e.id in names_in_target(f.target)[1:]:
                 return it.func.value.id
         return e.id
-    if isinstance(e, ast.GeneratorExp):
+    if isinstance(e, (ast.GeneratorExp, ast.ListComp)):
         it = e.generators[0].iter
         return _collection_of(P, u, it)
     return None
@@ -608,14 +608,18 @@ def own_error(ctx, rr):
         hv = None
         if ok:
             rv = rets[0].value
-            ok = isinstance(rv, ast.Attribute) and isinstance(rv.value, ast.Name)
+            src_expr = rv
+            if isinstance(rv, ast.Name):
+                from ..dataflow import single_defs
+                src_expr = single_defs(P, u).get(rv.id, rv)
+            ok = isinstance(src_expr, ast.Attribute) and isinstance(src_expr.value, ast.Name) and src_expr.attr == attr
             if ok:
                 hv = ast.unparse(rv)
                 fr = gf.facts_at(raises[0].exc) or set()
                 ft = gf.facts_at(rv) or set()
                 ok = any(f[0] == 'F' and f[1] == hv for f in fr) and any(f[0] == 'T' and f[1] == hv for f in ft)
                 # the history comes from follow_lru on the request's LRU
-                h = rv.value.id
+                h = src_expr.value.id
                 src = [a for a in P.own(u, ast.Assign) if h in names_in_target(a.targets[0])]
                 ok = ok and len(src) == 1 and isinstance(src[0].value, ast.Call) and P.method('LRUTrie', 'follow_lru') in P.targets(src[0].value)
         rr.ob(ctx.where(u), '%s raises TraphException iff the walk history carries no webentity (%s) and otherwise returns it' % (name, hv), ok=ok)
@@ -652,24 +656,65 @@ def webentity_id(ctx, rr):
                     muts[name] = n
     rr.require(len(muts), 1, 'counter mutators in LRUTrieHeader')
     gen = P.method('Traph', '__generated_web_entity_id')
-    # (1) single writer of the counter, monotone increment
+    # (1) single writer of the counter, monotone increment.  Header methods that reach a mutator through another header method
+    # (increment -> increment_by -> set) are mutators too; calls inside the header class are delegation, not clients.
+    deleg = {}
+    changed = True
+    while changed:
+        changed = False
+        for name, hu in hdr.items():
+            if name in muts or name in deleg:
+                continue
+            for c in P.own(hu, ast.Call):
+                if isinstance(c.func, ast.Attribute) and isinstance(c.func.value, ast.Name) and c.func.value.id == 'self' and (c.func.attr in muts or c.func.attr in deleg):
+                    deleg[name] = c
+                    changed = True
+    allm = set(muts) | set(deleg)
     callers = []
     for u in P.units:
+        if u.cls == TRIE_HEADER:
+            continue
         for c in P.own(u, ast.Call):
             for t in P.targets(c):
-                if t.cls == TRIE_HEADER and t.name in muts:
+                if t.cls == TRIE_HEADER and t.name in allm:
                     callers.append((u, c, t))
     ok = bool(callers) and all(u is gen for u, c, t in callers)
-    rr.ob(ctx.where(gen), '(1) the webentity-id counter is changed only by %s (%d call sites of %s)' % (gen.qual, len(callers), sorted(muts)), ok=ok)
+    rr.ob(ctx.where(gen), '(1) the webentity-id counter is changed only by %s (%d call sites of %s)' % (gen.qual, len(callers), sorted(allm)), ok=ok)
     for u, c, t in callers:
         if u is not gen:
             rr.fail(ctx.finding('R-ID', u, c, 'the webentity-id counter is changed outside the id allocator (%s)' % t.qual))
+
+    def positive(e):
+        return isinstance(e, ast.Constant) and isinstance(e.value, int) and not isinstance(e.value, bool) and e.value > 0
+
+    def is_last(e):
+        t_ = ast.unparse(e).replace(' ', '')
+        return t_ in ('self.last_webentity_id()', 'self.data[%s]' % CE_idx)
+
+    def subst(e, env):
+        class S(ast.NodeTransformer):
+            def visit_Name(self, node):
+                return copy_.deepcopy(env[node.id]) if node.id in env else node
+        import copy as copy_
+        return S().visit(copy_.deepcopy(e))
+
+    def strict(name, args, depth=0):
+        """does calling header method `name` with argument expressions `args` (already in terms of constants / last id) strictly increase the counter?"""
+        if depth > 4:
+            return False
+        hu = hdr[name]
+        env = dict(zip(hu.call_params, args))
+        if name in muts:
+            n_ = muts[name]
+            if isinstance(n_, ast.AugAssign):
+                return isinstance(n_.op, ast.Add) and positive(subst(n_.value, env))
+            v = subst(n_.value, env)
+            return isinstance(v, ast.BinOp) and isinstance(v.op, ast.Add) and ((is_last(v.left) and positive(v.right)) or (is_last(v.right) and positive(v.left)))
+        c_ = deleg[name]
+        return strict(c_.func.attr, [subst(a_, env) for a_ in c_.args], depth + 1)
     for u, c, t in callers:
-        n = muts[t.name]
-        mono = isinstance(n, ast.AugAssign) and isinstance(n.op, ast.Add) and (
-            (isinstance(n.value, ast.Constant) and isinstance(n.value.value, int) and n.value.value > 0) or
-            (isinstance(n.value, ast.Name) and c.args and isinstance(c.args[0], ast.Constant) and isinstance(c.args[0].value, int) and c.args[0].value > 0))
-        rr.ob(ctx.where(t, n), '(1) %s strictly increases the counter' % t.qual, ok=mono)
+        mono = strict(t.name, list(c.args))
+        rr.ob(ctx.where(t), '(1) %s strictly increases the counter' % t.qual, ok=mono)
         if not mono:
             rr.fail(ctx.finding('R-ID', u, c, 'the allocator changes the counter through %s, which is not a strict increment: ids may repeat' % t.qual))
     # (2) increment -> header.write() -> id read, on every path of the allocator
@@ -678,7 +723,7 @@ def webentity_id(ctx, rr):
 
     def ev_of(c):
         for t in P.targets(c):
-            if t.cls == TRIE_HEADER and t.name in muts:
+            if t.cls == TRIE_HEADER and t.name in allm:
                 return 'inc'
             if t.cls == TRIE_HEADER and t.name == 'write':
                 return 'write'
@@ -796,9 +841,13 @@ def webentity_id(ctx, rr):
         return st
     IN6 = solve_forward(g, 0, tr6, lambda lab, st: st, min)
     ok = all(tr6(p, IN6.get(p.id, 0)) == 2 for p, _ in g.exit.pred)
-    # and read() really loads the stored counter into self.data
+    # and read() really loads the stored counter into self.data (directly or through a local holding the block)
+    from ..dataflow import single_defs as _single_defs
+    _sd = _single_defs(P, rd)
     ok = ok and any(isinstance(a, ast.Assign) and any(ast.unparse(t) == 'self.data' for t in a.targets)
-                    and any(t2.cls in STORAGES and t2.name == 'read' for c in ast.walk(a.value) if isinstance(c, ast.Call) for t2 in P.targets(c))
+                    and (any(t2.cls in STORAGES and t2.name == 'read' for c in ast.walk(a.value) if isinstance(c, ast.Call) for t2 in P.targets(c))
+                         or any(isinstance(x, ast.Name) and isinstance(_sd.get(x.id), ast.Call) and any(t2.cls in STORAGES and t2.name == 'read' for t2 in P.targets(_sd[x.id]))
+                                for x in ast.walk(a.value)))
                     for a in P.own(rd, ast.Assign))
     rr.ob(ctx.where(init), '(6) opening a trie ensures then re-reads the stored header (the counter survives close/reopen)', ok=ok)
     if not ok:
